@@ -140,3 +140,80 @@ theorem conditional_patch_list_misses_switch :
   ⟨[.stringSwitch 12, .pragmaSaveBinary true], by decide, by decide⟩
 
 end NV.C17
+
+namespace NV.C17
+
+/-! ### 7. save_binary before the seventh fix: a program compiled against an outdated parent in memory was saved -/
+
+/-- the old `save_binary`: `#pragma save_binary` in force ⇒ written, whatever the state of the inherited programs -/
+def oldSaveStep (s : Sys) (d : ProgDecl) (_linked : List (String × Nat)) : Sys :=
+  if !d.save then s
+  else
+    let bp := binPath s.w d.name
+    let b : BinFile := { magic := magicId, driverId := driverId, configId := s.w.configId,
+                         includes := d.includes, name := d.name, inherits := d.inherits }
+    { s with w := { s.w with files := (bp, s.vnow) :: s.w.files.filter (·.1 != bp),
+                             bins := (bp, b) :: s.w.bins.filter (·.1 != bp) },
+             vnow := s.vnow + 1, evs := Ev.sv d.name s.vnow d.includes :: s.evs }
+
+/-- b.c was edited at 1024 while b (loaded at 1013, not saved) stays in memory; a is compiled again at 1034.  The old code
+    saves a's binary — laid out for the old b — with modification time 1034; once b is loaded again from its new source
+    nothing is newer than that binary: `load_binary` uses it (first conjuncts).  The repaired `save_binary` does not
+    write it. -/
+theorem old_saved_against_outdated_parent :
+    let w0 : World := { files := [("a.c", 1002), ("b.c", 1024)],
+                        progs := [("b.c", { files := ["b.c"], inherits := [], gen := 1, loadTime := 1013 })],
+                        loaded := ["b"],
+                        objOf := fun n => if n = "b.c" then "b" else "?",
+                        binOf := fun n => if n = "b.c" then "B/b" else "B/a" }
+    let s0 : Sys := { w := w0, vnow := 1034, ctime := 1034 }
+    let d : ProgDecl := { name := "a.c", save := true, includes := [], inherits := ["b.c"] }
+    let s1 := oldSaveStep s0 d [("b.c", 1)]
+    -- later: b loaded again from the edited source at 1054
+    let w2 : World := { s1.w with progs := [("b.c", { files := ["b.c"], inherits := [], gen := 2, loadTime := 1054 })] }
+    s1.evs = [Ev.sv "a.c" 1034 []] ∧ loadBinary w2 "a.c" = .use ∧
+      (saveStep s0 d [("b.c", 1)]).evs = [Ev.svSkipped "a.c"] := by
+  decide
+
+end NV.C17
+
+namespace NV.C17
+
+/-! ### 8. open finding: an include file shadowed by a new file earlier in the search path -/
+
+/-- `inc_open` (lib/lpc/lex.c): an include directive takes the first candidate that exists — the file next to the
+    including file, then `<include dir>/<name>` for every configured include directory in order -/
+def resolveInclude (w : World) (cands : List String) : Option String :=
+  cands.find? (fun c => (w.mtime c).isSome)
+
+/-- the full statement: when a binary is used, every include directive of the program still resolves to the file the
+    binary recorded for it -/
+def IncludesResolveAsRecorded_Full : Prop :=
+  ∀ (w : World) (name : String) (b : BinFile) (cands : List String) (r : String),
+    loadBinary w name = .use → w.bins.lookup (binPath w name) = some b → r ∈ b.includes → r ∈ cands →
+      resolveInclude w cands = some r
+
+/-- a.c includes "s.h", found as include/s.h when a.c was compiled and saved (200); later d/s.h appears (modification
+    time 80, older than everything): the binary is used, a compile would now read d/s.h -/
+def shadowBin : BinFile :=
+  { magic := magicId, driverId := driverId, configId := 0, includes := ["include/s.h"], name := "d/a.c", inherits := [] }
+
+def shadowWorld : World :=
+  { files := [("B/a", 200), ("d/a.c", 100), ("include/s.h", 90), ("d/s.h", 80)],
+    bins := [("B/a", shadowBin)],
+    binOf := fun _ => "B/a" }
+
+theorem shadow_facts :
+    loadBinary shadowWorld "d/a.c" = .use ∧
+      shadowWorld.bins.lookup (binPath shadowWorld "d/a.c") = some shadowBin ∧
+      resolveInclude shadowWorld ["d/s.h", "include/s.h"] = some "d/s.h" := by
+  decide
+
+theorem include_shadowing_not_seen : ¬ IncludesResolveAsRecorded_Full := by
+  intro h
+  obtain ⟨h1, h2, h3⟩ := shadow_facts
+  have := h shadowWorld "d/a.c" shadowBin ["d/s.h", "include/s.h"] "include/s.h" h1 h2 (by simp [shadowBin]) (by simp)
+  rw [h3] at this
+  simp at this
+
+end NV.C17
